@@ -281,7 +281,7 @@ inline const std::vector<std::string>& allFeatures() {
         "lre", "message", "modes", "sort2", "comment-pi", "exslt-set", "exslt-math", "exslt-str", "genid", "lang", "sysprop", "param", "ifbool",
         "union", "preds", "valnum", "apply-imports", "text-nodes", "ns-axis", "doctype-node", "attr-nodes", "number-value", "bigfmt", "xalan-ext", "docfn", "avt-ns", "extfn", "paramuse", "gate", "num-gate", "sortlang", "num-value", "lazyvar", "manyrtf", "deeprec", "padsupp", "top-nodes", "doe", "sort-gate", "bignum-alpha",
         "num-punct", "num-exotic", "ext-evaluate", "rtf-key", "key-prefixed", "key-variant",
-        "nsalias", "withparam", "fmtnum-pat", "doc2", "unparsed-entity", "nsfix", "numconv", "keynodeset", "randexpr", "manydf"
+        "nsalias", "withparam", "fmtnum-pat", "doc2", "unparsed-entity", "nsfix", "numconv", "keynodeset", "randexpr", "manydf", "axes-matrix"
     };
     return f;
 }
@@ -396,6 +396,11 @@ struct SSGen {
         // more named decimal formats with different symbols than the formatter cache holds (10)
         if (on("manydf")) { std::string uses; static const char* const seps = ",:!_~^`|@$?="; for (int i = 0; i < 12; ++i) { std::string n = "mdf" + std::to_string(i); top += "<xsl:decimal-format name=\"" + n + "\" decimal-separator=\"" + std::string(1, seps[i]) + "\" grouping-separator=\"" + std::string(1, seps[(i + 5) % 12]) + "\"/>"; uses += vo("format-number(@v * 1000.5 + " + std::to_string(i) + ", '#" + std::string(1, seps[(i + 5) % 12]) + "##0" + std::string(1, seps[i]) + "0', '" + n + "')") + " "; }
             perNode += "<xsl:if test=\"count(preceding::*) mod 3 = 0\">" + o("manydf", uses) + "</xsl:if>"; }
+        // every axis from every kind of context node that is not an element (attribute, text, comment, processing instruction)
+        if (on("axes-matrix")) { static const char* const ctx[] = { "@id", "@k", "text()[1]", "comment()[1]", "processing-instruction()[1]" };
+            static const char* const ax[] = { "following::*", "preceding::*", "ancestor::*", "parent::*", "following-sibling::node()", "preceding-sibling::node()", "descendant-or-self::node()", "ancestor-or-self::node()", "self::node()", "child::node()", "attribute::*", "following::node()", "preceding::node()", ".." };
+            std::string body; for (auto c1 : ctx) { body += std::string("[") + c1 + ":"; for (auto a1 : ax) body += vo(std::string("count(") + c1 + "/" + a1 + ")") + ","; body += "]"; }
+            perNode += "<xsl:if test=\"count(preceding::*) mod 3 = 1 or not(ancestor::*)\">" + o("axes-matrix", body) + "</xsl:if>"; }
         // many result tree fragments alive at the same time (arena blocks of the fragment allocators hold 10)
         if (on("manyrtf")) { std::string vars, uses; for (int i = 0; i < 13; ++i) { std::string n = "mr" + std::to_string(i); vars += "<xsl:variable name=\"" + n + "\"><r" + std::to_string(i) + "><xsl:value-of select=\"@id\"/></r" + std::to_string(i) + ">t" + std::to_string(i) + "</xsl:variable>"; uses += "<xsl:value-of select=\"string-length($" + n + ")\"/>,"; }
             perNode += "<xsl:if test=\"count(preceding::*) mod 4 = 0\">" + vars + "<o f=\"manyrtf\" n=\"{@id}\">" + uses + "<xsl:copy-of select=\"$mr12\"/></o></xsl:if>"; }
